@@ -155,6 +155,13 @@ def run_model_history(seed, transform=None):
     for _ in range(rng.randint(1, 2)):
         secs += page.get_sections(**section_options(rng))
     secs = secs[:5]
+    if secs and rng.random() < 0.35:
+        # sections taken FROM a section (a view of a view): they are views of the page like any other
+        sub = rng.choice(secs).get_sections(**section_options(rng))[:2]
+        for v in sub:
+            if not hasattr(v.nodes, "_sliceinfo"):
+                return "0 0 0", "", (0, "a section obtained from a section is not a live view of the page (its node list is a %s)" % type(v.nodes).__name__), True, text
+        secs = (secs + sub)[:6]
     if transform is not None:     # e.g. pickle round trip of (page, sections): C17
         page, secs = transform(page, secs)
     ids = Ids()
